@@ -319,6 +319,18 @@ def g0_cmp(cfg, a, b, c):
                   lz(mg._value) == lz(mf._value))
 
 
+def g0_int_args(cfg, a, b, c):
+    "guard = 0: plain-int operands of + -, mul, div, muldiv behave as in Fixed  (pre: b != 0)"
+    G, F = _pair(cfg)
+    gx, fx_ = G(a, True), F(a, True)
+    return z3.And(_same(gx + b, fx_ + b, G, F), _same(gx - b, fx_ - b, G, F),
+                  _same(G.mul(gx, b, round='up'), F.mul(fx_, b, round='up'), G, F),
+                  _same(G.mul(b, gx, round='down'), F.mul(b, fx_, round='down'), G, F),
+                  _same(G.div(gx, b, round='up'), F.div(fx_, b, round='up'), G, F),
+                  _same(G.div(gx, b, round='down'), F.div(fx_, b, round='down'), G, F),
+                  _same(G.muldiv(gx, b, b, round='up'), F.muldiv(fx_, b, b, round='up'), G, F))
+
+
 def g0_flags(cfg, a, b, c):
     "class-level behaviour with zero guard digits (concrete law)"
     G, F = _pair(cfg)
@@ -331,7 +343,7 @@ def g0_flags(cfg, a, b, c):
 GUARDED_LAWS = {
     'gd_cmp_law': (gd_cmp_law, None), 'g0_arith': (g0_arith, 'b'), 'g0_ops': (g0_ops, 'b'), 'g0_mul_up': (g0_mul_up, None), 'g0_mul_down': (g0_mul_down, None), 'g0_div_up': (g0_div_up, 'b'),
     'g0_div_down': (g0_div_down, 'b'), 'g0_muldiv_up': (g0_muldiv_up, 'c'), 'g0_muldiv_down': (g0_muldiv_down, 'c'),
-    'g0_cmp': (g0_cmp, None), 'g0_flags': (g0_flags, 'concrete'),
+    'g0_cmp': (g0_cmp, None), 'g0_flags': (g0_flags, 'concrete'), 'g0_int_args': (g0_int_args, 'b'),
 }
 
 
